@@ -14,6 +14,7 @@ INST = {
 UNITS = {
     "drv": ("units/drv.rs", None),
     "final": ("units/final.rs", None),
+    "gen": ("units/gen.rs", None),
     "parse": ("units/parse.rs", None),
     "cmp": ("units/cmp.rs", None),
     "time": ("units/time.rs", None),
@@ -105,6 +106,12 @@ PLAN["C10"] = dict(
 PLAN["C18"] = dict(
     verus=dict(quick=["parse"], thorough=["parse"]),
     kani=dict(quick=[], thorough=[]),
+    level="proof",
+)
+
+PLAN["C19"] = dict(
+    verus=dict(quick=["gen"], thorough=["gen"]),
+    kani=dict(quick=["gen_range", "gen_linspace"], thorough=["gen_range", "gen_linspace", "gen_range_wide"]),
     level="proof",
 )
 
